@@ -12,8 +12,10 @@ import (
 	"strings"
 	"time"
 
+	"github.com/gofiber/fiber/v3"
 	flog "github.com/gofiber/fiber/v3/log"
 
+	"verifharness/internal/drive"
 	"verifharness/internal/ev"
 	"verifharness/internal/gen"
 	"verifharness/internal/reg"
@@ -69,6 +71,9 @@ func run(e *ev.Env) {
 			e.Stat("keyref_histories_with_mutated_key|"+hs.cfg.extractor+fmt.Sprintf("|reusectx=%v", hs.cfg.reuseCtx), 1)
 		}
 	})
+	// Several middleware instances on the DEFAULT storage in one process (apps of their own, or route
+	// groups of one app): a token is only good for the instance that issued it.
+	e.Cases("instances", e.N(240, 6000), func(c *ev.Case) { instancesCase(e, c) })
 	e.Cases("hist-mem", nmem, func(c *ev.Case) {
 		hs := genHistory(c.R, []string{bMemory, bMemory, bSessMWMem}, 14, false)
 		if hs.cfg.idle > 10*time.Second {
@@ -77,6 +82,78 @@ func run(e *ev.Env) {
 		_, nt := runHistory(e, c, hs, nil, "")
 		noteHistory(e, hs, nt)
 	})
+}
+
+// runInstances runs several histories, one per middleware instance, interleaved on one clock.
+// order lists which instance takes its next step.
+func runInstances(e *ev.Env, c *ev.Case, specs []*histSpec, shared *fiber.App, order []int) {
+	var rns []*runner
+	for i, hs := range specs {
+		if shared != nil {
+			hs.cfg.sharedApp, hs.cfg.pathPrefix = shared, "/g"+strconv.Itoa(i+1)
+		}
+		rns = append(rns, newRunner(e, c, hs, nil, ""))
+	}
+	for i, rn := range rns {
+		if shared != nil {
+			rn.w.d = drive.NewDirect(shared) // every group is registered now
+		}
+		for j, o := range rns {
+			if j != i {
+				rn.peers = append(rn.peers, o)
+			}
+		}
+	}
+	vt.AlignHalf(0)
+	next := make([]int, len(rns))
+	for _, i := range order {
+		if next[i] < len(specs[i].steps) {
+			rns[i].trace = append(rns[i].trace, "-- instance "+strconv.Itoa(i+1)+" ("+specs[i].cfg.cookieName+")")
+			rns[i].step(&specs[i].steps[next[i]])
+			next[i]++
+		}
+	}
+	for i, rn := range rns {
+		noteHistory(e, specs[i], rn.nontrivial)
+	}
+	e.Stat("instance_groups", 1)
+}
+
+func instancesCase(e *ev.Env, c *ev.Case) {
+	r := c.R
+	n := r.Range(2, 3)
+	var shared *fiber.App
+	base := genCfg(r, []string{bMemory})
+	if r.Bool() {
+		shared = fiber.New(appConfig(base))
+	}
+	var specs []*histSpec
+	var order []int
+	for i := 0; i < n; i++ {
+		cfg := genCfg(r, []string{bMemory})
+		cfg.mode, cfg.host, cfg.req, cfg.customMethods = base.mode, base.host, base.req, base.customMethods
+		if cfg.idle > 10*time.Second {
+			cfg.idle = 10 * time.Second
+		}
+		if r.Bool() {
+			cfg.cookieName = "csrf_" // the same cookie name in every instance is the common set-up
+		}
+		hs := genSteps(r, cfg, 8, false)
+		hs.steps = append(mkSteps("fetch"), hs.steps...)
+		for k := range hs.steps {
+			st := &hs.steps[k]
+			switch {
+			case st.kind == kPost && r.Chance(2, 5):
+				st.ext, st.ck, st.label = selPeer, selPeer, "token-of-another-instance"
+			case st.kind == kFetch && k > 0 && r.Chance(1, 6):
+				st.ck, st.label = selPeer, "fetch-with-cookie-of-another-instance"
+			}
+			order = append(order, i)
+		}
+		specs = append(specs, hs)
+	}
+	gen.Shuffle(r, order)
+	runInstances(e, c, specs, shared, order)
 }
 
 func noteHistory(e *ev.Env, hs *histSpec, nontrivial bool) {
@@ -176,6 +253,16 @@ func mkSteps(spec ...string) []step {
 			s.kind, s.method, s.ext, s.ck = kPost, "POST", selOwn, selMut
 		case "one-byte-off-extractor":
 			s.kind, s.method, s.ext, s.ck = kPost, "POST", selMut, selOwn
+		case "peer-token":
+			s.kind, s.method, s.ext, s.ck = kPost, "POST", selPeer, selPeer
+		case "fetch-peer-cookie":
+			s.kind, s.method, s.ck = kFetch, "GET", selPeer
+		case "preflight":
+			s.kind, s.method, s.xhdr = kFetch, "OPTIONS", 1
+		case "preflight-stale-cookie":
+			s.kind, s.method, s.xhdr, s.ck = kFetch, "OPTIONS", 2, selStale
+		case "preflight-forged-cookie":
+			s.kind, s.method, s.xhdr, s.ck = kFetch, "OPTIONS", 6, selForged
 		case "delete-token-post":
 			s.kind, s.method, s.ext, s.ck = kDel, "POST", selOwn, selOwn
 		case "delete-token-get":
@@ -696,6 +783,51 @@ func corpus(e *ev.Env) {
 						_, nt := runHistory(e, c, hs, nil, "")
 						noteHistory(e, hs, nt)
 					}
+				}
+			}
+		}
+	})
+	// Safe requests with request headers no clause mentions (CORS preflight, fetch metadata, AJAX marker,
+	// Origin/Referer of any kind), without a cookie and with stale / forged ones: they pass and leave a
+	// valid token cookie like any other safe request.
+	e.Corpus("safe-requests-extra-headers", func(c *ev.Case) {
+		for _, be := range []string{bVstore, bSessStore, bSessMW} {
+			for _, ex := range []string{"header", "cookie"} {
+				cfg := fixedCfg(be, ex, false)
+				hs := &histSpec{cfg: cfg, nClients: 1, steps: mkSteps("preflight", "own", "fetch", "own", "delete-token-post",
+					"preflight-stale-cookie", "own", "preflight-forged-cookie", "own")}
+				for x := range extraHeaders {
+					for _, m := range safeMethods[2:] {
+						for _, og := range []int{ofNone, ofSame, ofEvil, ofRefOK, ofRefBad} {
+							hs.steps = append(hs.steps, step{kind: kFetch, method: m, sidSel: selOwn, xhdr: x, orig: og, label: "fetch"})
+						}
+					}
+				}
+				hs.steps = append(hs.steps, mkSteps("own")...)
+				_, nt := runHistory(e, c, hs, nil, "")
+				noteHistory(e, hs, nt)
+			}
+		}
+	})
+	// Two middleware instances on the default storage, as apps of their own and as route groups of one
+	// app, with equal and with different cookie names: a token of one is never good for the other.
+	e.Corpus("two-instances-default-storage", func(c *ev.Case) {
+		for _, grouped := range []bool{false, true} {
+			for _, sameName := range []bool{true, false} {
+				for _, ex := range []string{"header", "cookie", "form"} {
+					a, b := fixedCfg(bMemory, ex, false), fixedCfg(bMemory, ex, true)
+					a.prefix, b.prefix = "insta", "instb"
+					b.idle = 6 * time.Second
+					if !sameName {
+						b.cookieName = "csrf_b"
+					}
+					var shared *fiber.App
+					if grouped {
+						shared = fiber.New(appConfig(a))
+					}
+					sa := &histSpec{cfg: a, nClients: 1, steps: mkSteps("fetch", "peer-token", "own", "fetch-peer-cookie", "own", "peer-token")}
+					sb := &histSpec{cfg: b, nClients: 1, steps: mkSteps("fetch", "peer-token", "own", "fetch-peer-cookie", "own", "peer-token")}
+					runInstances(e, c, []*histSpec{sa, sb}, shared, []int{0, 1, 1, 0, 0, 1, 1, 0, 0, 1, 0, 1})
 				}
 			}
 		}
